@@ -485,6 +485,20 @@ class Machine:
         from . import lib_std
         lib_std.install(self)
 
+    def reset(self):
+        """Forget all per-path state (the static indexes and summaries are kept)."""
+        self.ctx = None
+        self.static_cells = {}
+        self.steps = 0
+        self.trace = None
+        self.fns_executed = set()
+        self.summaries_used = set()
+        self.log_records = []
+        self.log_max_level = 0
+        self.hash_order = 'first'
+        for k in [k for k in self.__dict__ if k.startswith('x_')]:
+            del self.__dict__[k]
+
     # ------------------------------------------------------------ definitions
     def _src_line(self, file, l1, c1, l2, c2):
         import os
@@ -1328,39 +1342,57 @@ class Machine:
         return self.run_body(fn, args)
 
     def merged_call(self, fn, args):
+        """Pure scalar function: explore it once on fresh symbols (empty path condition), keep the
+        if-then-else term as a template, and instantiate it by substitution at every call."""
+        tmpl = getattr(fn, 'template', None)
+        if tmpl is None:
+            tmpl = fn.template = self._build_template(fn, args)
+        if tmpl is False:
+            return None
+        formals, res = tmpl
+        subs = []
+        for f, a in zip(formals, _flatten(args)):
+            subs.append((f, a.z() if isinstance(a, Int) else zb(a)))
+        self.ctx._stat('merged_calls')
+        return _subst_val(res, subs)
+
+    def _build_template(self, fn, args):
         outer = self.ctx
+        tctx = Ctx()
+        formals = []
+        targs = []
+        for k, a in enumerate(args):
+            targs.append(_fresh_like(a, 'tmpl_%s_%d' % (fn.name.rsplit('::', 1)[-1], k), formals))
         results = []
         stack = [[]]
-        trace_save = self.trace
         try:
             while stack:
                 pre = stack.pop()
-                sub = MergeCtx(outer, pre)
+                sub = MergeCtx(tctx, pre)
                 self.ctx = sub
-                outer.solver.push()
+                tctx.solver.push()
                 try:
-                    v = self.run_body(fn, [copy_val(a) for a in args])
+                    v = self.run_body(fn, [copy_val(a) for a in targs])
                 except Infeasible:
                     continue
                 except (Panic, Unsupported):
-                    return None
+                    return False
                 finally:
-                    outer.solver.pop()
+                    tctx.solver.pop()
                 results.append((sub.conds, v))
                 stack.extend(sub.siblings)
         finally:
             self.ctx = outer
         if not results:
-            raise Infeasible()
+            return False
         res = results[-1][1]
         for conds, v in reversed(results[:-1]):
             c = z3.And(*conds) if conds else True
             try:
                 res = self.ite(c, v, res)
             except Unsupported:
-                return None
-        outer._stat('merged_calls')
-        return res
+                return False
+        return formals, res
 
     def call_lib(self, c, args, ret_ty, fr):
         h = None
@@ -1400,6 +1432,50 @@ class Machine:
         if hasattr(f, 'py_call'):
             return f.py_call(self, args)
         raise Unsupported('call of %r' % (f,))
+
+
+def _flatten(args):
+    out = []
+    for a in args:
+        if isinstance(a, (Array,)):
+            out.extend(_flatten(a.elems))
+        elif isinstance(a, Tuple):
+            out.extend(_flatten(a.fields))
+        else:
+            out.append(a)
+    return out
+
+
+def _fresh_like(a, name, formals):
+    if isinstance(a, Int):
+        v = z3.BitVec('%s_%d' % (name, len(formals)), BITS[a.ty])
+        formals.append(v)
+        return Int(a.ty, v)
+    if isinstance(a, (bool, z3.BoolRef)):
+        v = z3.Bool('%s_%d' % (name, len(formals)))
+        formals.append(v)
+        return v
+    if isinstance(a, Array):
+        return Array([_fresh_like(e, name, formals) for e in a.elems])
+    if isinstance(a, Tuple):
+        return Tuple([_fresh_like(e, name, formals) for e in a.fields])
+    raise Unsupported('template argument %r' % (a,))
+
+
+def _subst_val(v, subs):
+    if isinstance(v, Int):
+        if not v.sym:
+            return v
+        return Int(v.ty, z3.simplify(z3.substitute(v.v, *subs)))
+    if isinstance(v, bool):
+        return v
+    if isinstance(v, z3.BoolRef):
+        return z3.simplify(z3.substitute(v, *subs))
+    if isinstance(v, Array):
+        return Array([_subst_val(e, subs) for e in v.elems])
+    if isinstance(v, Tuple):
+        return Tuple([_subst_val(e, subs) for e in v.fields])
+    raise Unsupported('template result %r' % (v,))
 
 
 def _is_scalar_ty(t):
